@@ -104,6 +104,10 @@ handshakeLoop:
 			return nil
 		case <-g.quit:
 			return nil
+		case err := <-errChan:
+			// The reader goroutine has exited: nothing would ever
+			// arrive on recvChan again.
+			return err
 		case b = <-recvChan:
 		}
 
